@@ -376,6 +376,47 @@ func runController(c *evid.Case) {
 			}
 		}
 	}
+	// the next duty: a second instance (height+1) is started on the same controller, which force-stops the previous one but
+	// keeps it stored; timeout events still stamped with the previous height (the timer is shared, its callback is re-registered
+	// per duty) must change nothing - neither instance, no re-arming, no broadcast
+	for _, nd := range cl.Honest() {
+		old := nd.Ctrl.StoredInstances.FindInstance(cfg.Height)
+		if old == nil || rng.Intn(2) == 0 {
+			continue
+		}
+		if err := nd.Ctrl.StartNewInstance(env.Logger, cfg.Height+1, nd.Start); err != nil {
+			continue
+		}
+		nd.Outbox = nil
+		cur := nd.Ctrl.StoredInstances.FindInstance(cfg.Height + 1)
+		if cur == nil || nd.Ctrl.StoredInstances.FindInstance(cfg.Height) == nil {
+			continue
+		}
+		class := "undecided"
+		if old.State.Decided {
+			class = "decided"
+		}
+		for _, r := range []specqbft.Round{old.State.Round, old.State.Round + 1, 1} {
+			oldB, _ := old.State.GetRoot()
+			curB, _ := cur.State.GetRoot()
+			arms, outs := nd.Arms, len(nd.AllOut)
+			err := cl.FireTimeoutFor(nd, cfg.Height, r)
+			nd.Outbox = nil
+			c.Count("controller_stale_events", 1)
+			c.Count("controller_event_previous-height-instance", 1)
+			c.Nontrivial(evid.Hash("ctrl-prev", cfg.N, class, old.State.Round, r))
+			c.Distinct("controller_state_x_event", evid.Hash(class, "previous-height-instance", old.State.Round > 1))
+			oldA, _ := old.State.GetRoot()
+			curA, _ := cur.State.GetRoot()
+			if oldA != oldB || curA != curB || nd.Arms != arms || len(nd.AllOut) != outs {
+				c.Violation("stale-timeout-event-changed-state", "previous-height-instance/"+class,
+					fmt.Sprintf("N=%d node %d: a second instance (height %d) is running; timeout event (height %d, round %d) for the stored, stopped previous instance (%s, round %d) changed something: previous instance changed=%v running instance changed=%v timer arms %d->%d broadcasts %d->%d (err=%v)",
+						cfg.N, nd.ID, cfg.Height+1, cfg.Height, r, class, old.State.Round, oldA != oldB, curA != curB, arms, nd.Arms, outs, len(nd.AllOut), err),
+					map[string]any{"config": cfg, "prefix_actions": tailStr(cl.Acts, 50)})
+				break
+			}
+		}
+	}
 	if c.Index == 0 && c.Idx == 0 {
 		c.Sample(map[string]any{"lane": "controller", "config": cfg, "state": cl.AbstractState()})
 	}
